@@ -333,10 +333,13 @@ def run_batch_into(S, log, seed, batch, tier, n, hashseed):
         S.probes['P_iteration_in_assembled_plan'] += 1
       if len(req) > 1:
         S.probes['P_several_predicates_requested'] += 1
-      S.states.add(core.digest64(['P', [c[0] for c in obs['calls']]]))
+      # ExecuteLogicaProgram sends the distinct preambles in the iteration order of a set; which
+      # of them comes first is not part of any property, so the log does not tell them apart
+      labels = ['PREAMBLE' if c[0].startswith('ATTACH common;') else c[0] for c in obs['calls']]
+      S.states.add(core.digest64(['P', labels]))
       if len(prog['requested']) > 1 or prog['iterations'] or case.get('error_at') is not None:
         S.nontrivial.add(core.digest64(case))
-      log.add('P', core.digest(case)[:16], [c[0] for c in obs['calls']], obs['outcome'], [v['class'] for v in vs])
+      log.add('P', core.digest(case)[:16], labels, obs['outcome'], [v['class'] for v in vs])
       for v in vs:
         if len(S.violations) < 40:
           v = dict(v)
